@@ -65,6 +65,7 @@ namespace mc
     {
         std::string name;
         bool is_bfs;
+        bool thorough_only = false;
         std::function<void()> body;
         std::function<std::unique_ptr<Model>()> factory;
         BfsOpts opts;
@@ -397,10 +398,11 @@ namespace mc
         return true;
     }
 
-    void add_check(const std::string &name, std::function<void()> body)
+    void add_check(const std::string &name, std::function<void()> body, bool thorough_only)
     {
         Check c;
         c.name = name;
+        c.thorough_only = thorough_only;
         c.is_bfs = false;
         c.body = body;
         checks().push_back(c);
@@ -412,6 +414,7 @@ namespace mc
         c.is_bfs = true;
         c.factory = factory;
         c.opts = o;
+        c.thorough_only = o.thorough_only;
         checks().push_back(c);
     }
 
@@ -699,6 +702,7 @@ namespace mc
             fwrite(&oo, 2, 1, rec);
             fwrite(&kl, 4, 1, rec);
             fwrite(k.data(), 1, kl, rec);
+            fflush(rec); // a later transition of this item may kill the worker: records must already be on disk
             m.reset();
         }
         bfs_op = -1;
@@ -1435,6 +1439,8 @@ namespace mc
         bool deadline_hit = false;
         for (auto &c : checks())
         {
+            if (c.thorough_only && !g_thorough)
+                continue;
             if (!only.empty())
             {
                 bool m = false;
